@@ -1,0 +1,47 @@
+//go:build verif
+
+package plugin
+
+import "github.com/cloudwego/thriftgo/parser"
+
+// Export-only shims for the verification harness (/verif, property C11). Include compression
+// is only switched on for plugins whose build info reports a released thriftgo >= v0.4.2 and
+// when THRIFTGO_PLUGIN_COMPRESS_INCLUDE=1, which an in-process harness cannot arrange.
+// Nothing here is compiled without the build tag `verif`.
+
+// VerifCompressThriftInclude is compressThriftInclude.
+func VerifCompressThriftInclude(p *parser.Thrift, m map[string]*parser.Thrift) {
+	compressThriftInclude(p, m)
+}
+
+// VerifDecompressThriftInclude is decompressThriftInclude.
+func VerifDecompressThriftInclude(p *parser.Thrift, m map[string]*parser.Thrift) {
+	decompressThriftInclude(p, m)
+}
+
+// VerifAppendDataTrailer appends the trailer announcing include compression.
+func VerifAppendDataTrailer(data []byte) []byte {
+	return appendDataTrailer(data, featureCompressInclude)
+}
+
+// VerifHasCompressTrailer reports whether data carries the include-compression trailer.
+func VerifHasCompressTrailer(data []byte) bool {
+	return hasDataTrailerFeature(data, featureCompressInclude)
+}
+
+// VerifSupportDataTrailer is supportDataTrailer (version gate for the trailer).
+func VerifSupportDataTrailer(v string) bool { return supportDataTrailer(v) }
+
+// VerifReadPluginThriftGoVersion is readPluginThriftGoVersion.
+func VerifReadPluginThriftGoVersion(path string) string { return readPluginThriftGoVersion(path) }
+
+// VerifSetCompressThriftInclude sets the flag that THRIFTGO_PLUGIN_COMPRESS_INCLUDE=1 sets at
+// start-up and returns the previous value.
+func VerifSetCompressThriftInclude(on bool) (old bool) {
+	old = enableCompressThriftInclude
+	enableCompressThriftInclude = on
+	return old
+}
+
+// VerifRefFilenamePrefix is the file-name prefix of a compressed include reference.
+const VerifRefFilenamePrefix = refFilenamePrefix
